@@ -1,5 +1,6 @@
 import P2PVerif.Lemmas.SrcMbapp
 import P2PVerif.Lemmas.SrcHdr
+import P2PVerif.Lemmas.SrcAgg
 import P2PVerif.Lemmas.SrcHdrSet
 import P2PVerif.Model.Reasm
 import P2PVerif.Lemmas.Reasm
@@ -158,5 +159,22 @@ theorem src_mbapp_part_fields_roundtrip (h : Go.Bytes) (idx cnt : UInt16) (hl : 
       mbapp.Header.GetPartIndex h2 = .ok idx ∧ mbapp.Header.GetPartCount h2 = .ok cnt ∧
       (∀ m, m < 4 ∨ m = 5 → SrcHdr.word h2 m = SrcHdr.word h m) :=
   SrcHdr.part_fields_roundtrip h idx cnt hl
+
+/-- ⊢ (source) fragswarm's `aggregator` (a nil parts table / a nil part is `none`): one fragment through `addPart` is
+    one step of the parts table in the model's `Frag.recv` — same refusal of a fragment that contradicts the table's
+    part count, same slot written, "complete" exactly when every slot is filled — and `assemble` then returns the
+    concatenation the model delivers. No fault for any part, total and table (defect 3 of section 7 was an index out of
+    range here). -/
+theorem src_aggregator_is_model (st : Option (List (Option Go.Bytes))) (part total : UInt8) (data : Go.Bytes) :
+    let mp := match st with
+      | none => List.replicate total.toNat none
+      | some l => SrcAgg.mparts l
+    ∃ b l', fragswarm.aggregator.addPart { parts := st } part total data = .ok (b, { parts := some l' }) ∧
+      (if mp.length ≠ total.toNat ∨ part.toNat ≥ mp.length then b = false ∧ SrcAgg.mparts l' = mp
+       else SrcAgg.mparts l' = mp.set part.toNat (some (nb data)) ∧
+            b = (mp.set part.toNat (some (nb data))).all Option.isSome ∧
+            (nb <$> fragswarm.aggregator.assemble { parts := some l' })
+              = .ok ((mp.set part.toNat (some (nb data))).flatMap (fun p => p.getD []))) :=
+  SrcAgg.addPart_model st part total data
 
 end P2PVerif.C10
